@@ -1,7 +1,9 @@
 // Compiled port trees for the runtime clause of C09 (engine `walk`, op `R`): the real
 // rRecur / rRecurp / rRecurs / rRecursp / rSelf / rEnabledBy macros of port-sugar.h, a fixed
-// but rich set of object trees.  The documentation string of every sub-tree port says
-// whether its object is embedded ("embedded": never NULL) or held by pointer ("pointer").
+// but rich set of object trees: guards by toggles and by integer parameters (at the level of the
+// guarded port, inside the guarded sub-tree, on a table's own self: port, on an enumerated
+// sub-tree port), member names with digits in front of the '#', indices with two digits.
+// The documentation string of every sub-tree port says whether its object is embedded ("embedded": never NULL) or held by pointer ("pointer").
 // tools/props/c09.py reads the shape of these trees from the harness itself (op `T`).
 #pragma once
 #include <rtosc/ports.h>
@@ -19,9 +21,10 @@ namespace wrt {
 
 // abstract runtime description parsed from the op line
 struct Spec {
-    std::map<std::string, bool> tog;
+    std::map<std::string, int> tog;                      // answer of a toggle (0/1) or of an integer parameter
     std::map<std::string, std::unique_ptr<Spec>> kids;   // value == nullptr: NULL pointer
-    bool toggle(const char *n) const { auto i = tog.find(n); return i != tog.end() && i->second; }
+    int val(const char *n) const { auto i = tog.find(n); return i == tog.end() ? 0 : i->second; }
+    bool toggle(const char *n) const { return val(n) != 0; }
     const Spec *kid(const std::string &rel, bool &present) const {
         auto i = kids.find(rel);
         present = i != kids.end();
@@ -41,17 +44,26 @@ struct Plain {
     bool t; int w;
     Plain() : t(false), w(0) {}
 };
+// member names with a digit in front of the '#' (s0x#2/, k1p#2/): the index of an element is
+// not the first digit run of the address
 struct Mid {
     static const rtosc::Ports ports;
-    bool a_on, p_on, q_on; int m;
-    Leaf a; Leaf *p; Leaf s[2]; Leaf *sp[2]; Plain q; Plain *r; Plain x;
-    Mid() : a_on(false), p_on(false), q_on(false), m(0), p(nullptr), r(nullptr) { sp[0] = sp[1] = nullptr; }
+    bool a_on, p_on, q_on, g_on; int m; int en;
+    Leaf a; Leaf *p; Leaf s0x[2]; Leaf *k1p[2]; Plain q; Plain *r; Plain x; Leaf b; Plain g[2];
+    Mid() : a_on(false), p_on(false), q_on(false), g_on(false), m(0), en(0), p(nullptr), r(nullptr) { k1p[0] = k1p[1] = nullptr; }
 };
 struct Root {
     static const rtosc::Ports ports;
     bool all_on, m2_on; int top;
     Mid m1; Mid *m2; Mid ms[2];
     Root() : all_on(false), m2_on(false), top(0), m2(nullptr) {}
+};
+// enumerations with two-digit indices; the table switches itself off by an integer parameter
+struct Wide {
+    static const rtosc::Ports ports;
+    int cnt; bool big_on;
+    Plain big[11]; Plain *pv[12]; Leaf z9;
+    Wide() : cnt(0), big_on(false) { for (auto &q : pv) q = nullptr; }
 };
 
 #define rObject Leaf
@@ -77,14 +89,18 @@ const rtosc::Ports Mid::ports = {
     rToggle(a_on, "switch"),
     rToggle(p_on, "switch"),
     rToggle(q_on, "switch"),
+    rToggle(g_on, "switch"),
     rParamI(m, "value"),
+    rParamI(en, "value"),
     rRecur(a, rEnabledBy(a_on), "embedded"),
     rRecurp(p, rEnabledBy(p_on), "pointer"),
-    rRecurs(s, 2, "embedded"),
-    rRecursp(sp, 2, "pointer"),
+    rRecurs(s0x, 2, "embedded"),
+    rRecursp(k1p, 2, "pointer"),
     rRecur(q, rEnabledBy(q_on), "embedded"),
     rRecurp(r, "pointer"),
     rRecur(x, rEnabledBy(x/t), "embedded"),      // guarded by a toggle of its own table
+    rRecur(b, rEnabledBy(en), "embedded"),       // guarded by an integer parameter
+    rRecurs(g, 2, rEnabledBy(g_on), "embedded"), // every element guarded by the same toggle
 };
 #undef rObject
 
@@ -100,6 +116,17 @@ const rtosc::Ports Root::ports = {
 };
 #undef rObject
 
+#define rObject Wide
+const rtosc::Ports Wide::ports = {
+    rSelf(Wide, rEnabledBy(cnt)),
+    rParamI(cnt, "value"),
+    rToggle(big_on, "switch"),
+    rRecurs(big, 11, rEnabledBy(big_on), "embedded"),
+    rRecursp(pv, 12, "pointer"),
+    rRecur(z9, "embedded"),
+};
+#undef rObject
+
 // owns the objects reached through pointers
 struct Pool {
     std::vector<std::unique_ptr<Leaf>> leaves;
@@ -109,39 +136,51 @@ struct Pool {
 
 inline bool cfg(Leaf &o, const Spec &s, Pool &) { o.on = s.toggle("on"); return true; }
 inline bool cfg(Plain &o, const Spec &s, Pool &) { o.t = s.toggle("t"); return true; }
+// embedded member
+template<class T> bool sub(T &o, const Spec &s, const std::string &rel, Pool &pool) {
+    bool pr; const Spec *k = s.kid(rel, pr);
+    return k && cfg(o, *k, pool);
+}
+// member held by pointer (the description may say NULL)
+template<class T> bool subp(T *&o, std::vector<std::unique_ptr<T>> &own, const Spec &s, const std::string &rel, Pool &pool) {
+    bool pr; const Spec *k = s.kid(rel, pr);
+    if (!pr) return false;
+    if (!k) { o = nullptr; return true; }
+    own.emplace_back(new T());
+    o = own.back().get();
+    return cfg(*o, *k, pool);
+}
 inline bool cfg(Mid &o, const Spec &s, Pool &pool) {
-    o.a_on = s.toggle("a_on"); o.p_on = s.toggle("p_on"); o.q_on = s.toggle("q_on");
-    bool pr; const Spec *k;
-    k = s.kid("a/", pr); if (!k || !cfg(o.a, *k, pool)) return false;
-    k = s.kid("p/", pr); if (!pr) return false;
-    if (k) { pool.leaves.emplace_back(new Leaf()); o.p = pool.leaves.back().get(); if (!cfg(*o.p, *k, pool)) return false; } else o.p = nullptr;
+    o.a_on = s.toggle("a_on"); o.p_on = s.toggle("p_on"); o.q_on = s.toggle("q_on"); o.g_on = s.toggle("g_on");
+    o.en = s.val("en");
+    if (!sub(o.a, s, "a/", pool) || !subp(o.p, pool.leaves, s, "p/", pool)) return false;
     for (int i = 0; i < 2; ++i) {
-        k = s.kid("s" + std::to_string(i) + "/", pr); if (!k || !cfg(o.s[i], *k, pool)) return false;
-        k = s.kid("sp" + std::to_string(i) + "/", pr); if (!pr) return false;
-        if (k) { pool.leaves.emplace_back(new Leaf()); o.sp[i] = pool.leaves.back().get(); if (!cfg(*o.sp[i], *k, pool)) return false; } else o.sp[i] = nullptr;
+        if (!sub(o.s0x[i], s, "s0x" + std::to_string(i) + "/", pool)) return false;
+        if (!subp(o.k1p[i], pool.leaves, s, "k1p" + std::to_string(i) + "/", pool)) return false;
+        if (!sub(o.g[i], s, "g" + std::to_string(i) + "/", pool)) return false;
     }
-    k = s.kid("q/", pr); if (!k || !cfg(o.q, *k, pool)) return false;
-    k = s.kid("r/", pr); if (!pr) return false;
-    if (k) { pool.plains.emplace_back(new Plain()); o.r = pool.plains.back().get(); if (!cfg(*o.r, *k, pool)) return false; } else o.r = nullptr;
-    k = s.kid("x/", pr); if (!k || !cfg(o.x, *k, pool)) return false;
-    return true;
+    return sub(o.q, s, "q/", pool) && subp(o.r, pool.plains, s, "r/", pool) && sub(o.x, s, "x/", pool) && sub(o.b, s, "b/", pool);
 }
 inline bool cfg(Root &o, const Spec &s, Pool &pool) {
     o.all_on = s.toggle("all_on"); o.m2_on = s.toggle("m2_on");
-    bool pr; const Spec *k;
-    k = s.kid("m1/", pr); if (!k || !cfg(o.m1, *k, pool)) return false;
-    k = s.kid("m2/", pr); if (!pr) return false;
-    if (k) { pool.mids.emplace_back(new Mid()); o.m2 = pool.mids.back().get(); if (!cfg(*o.m2, *k, pool)) return false; } else o.m2 = nullptr;
-    for (int i = 0; i < 2; ++i) {
-        k = s.kid("ms" + std::to_string(i) + "/", pr); if (!k || !cfg(o.ms[i], *k, pool)) return false;
-    }
+    if (!sub(o.m1, s, "m1/", pool) || !subp(o.m2, pool.mids, s, "m2/", pool)) return false;
+    for (int i = 0; i < 2; ++i)
+        if (!sub(o.ms[i], s, "ms" + std::to_string(i) + "/", pool)) return false;
     return true;
+}
+inline bool cfg(Wide &o, const Spec &s, Pool &pool) {
+    o.cnt = s.val("cnt"); o.big_on = s.toggle("big_on");
+    for (int i = 0; i < 11; ++i)
+        if (!sub(o.big[i], s, "big" + std::to_string(i) + "/", pool)) return false;
+    for (int i = 0; i < 12; ++i)
+        if (!subp(o.pv[i], pool.plains, s, "pv" + std::to_string(i) + "/", pool)) return false;
+    return sub(o.z9, s, "z9/", pool);
 }
 
 // one configured instance of compiled tree `id`
 struct Instance {
     Pool pool;
-    Root root; Mid mid; Leaf leaf;
+    Root root; Mid mid; Leaf leaf; Wide wide;
     const rtosc::Ports *ports = nullptr;
     void *obj = nullptr;
     bool make(int id, const Spec &s) {
@@ -149,6 +188,7 @@ struct Instance {
         case 0: ports = &Root::ports; obj = &root; return cfg(root, s, pool);
         case 1: ports = &Mid::ports;  obj = &mid;  return cfg(mid, s, pool);
         case 2: ports = &Leaf::ports; obj = &leaf; return cfg(leaf, s, pool);
+        case 3: ports = &Wide::ports; obj = &wide; return cfg(wide, s, pool);
         }
         return false;
     }
@@ -158,9 +198,10 @@ inline const rtosc::Ports *tree_ports(int id) {
     case 0: return &Root::ports;
     case 1: return &Mid::ports;
     case 2: return &Leaf::ports;
+    case 3: return &Wide::ports;
     }
     return nullptr;
 }
-const int NTREES = 3;
+const int NTREES = 4;
 
 } // namespace wrt
